@@ -191,7 +191,7 @@ Lemma small_index_complete_partial_l : forall p ops q k ef l,
 Proof.
   intros p ops q k ef l Hwf Hc Hconn Hef Hk Hs r v Hr.
   assert (Hcl : any_inactive (ix (run0 p ops)) = false).
-  { unfold class_of in Hc. destruct (HALF_PAGE <? page_use _); [discriminate|]. destruct (entry_dead _); [discriminate|]. destruct (any_inactive _); [discriminate | auto]. }
+  { unfold class_of in Hc. destruct (entry_dead _); [discriminate|]. destruct (any_inactive _); [discriminate | auto]. }
   pose proof (inv0_reached p ops Hwf Hcl) as I.
   set (w := run0 p ops) in *. set (s := ix w) in *.
   (* the node that carries row r *)
@@ -234,11 +234,10 @@ Proof.
     assert (HlU : length U = length (nodes s)) by (unfold U; rewrite map_length, seq_length; reflexivity).
     lia. }
   assert (Hyo : In y (finalize k rs)) by (eapply Permutation_in; [apply finalize_all; exact Hlen | exact Hy]).
-  rewrite map_map. cbn [fst]. apply in_map_iff. exists y. split; auto.
-  unfold row_of. rewrite Hcy.
-  rewrite (read_node_intro s (Z.of_nat i) nd ltac:(lia)); auto.
-  - rewrite Nat2Z.id. exact Hi.
-  - apply (i_active _ I). eapply nth_error_In; eauto.
+  assert (Hrd : read_node s (Z.of_nat i) = Some nd).
+  { apply read_node_intro; [lia | rewrite Nat2Z.id; exact Hi | apply (i_active _ I); eapply nth_error_In; eauto]. }
+  apply in_map_iff. exists (r, cd y). split; [reflexivity|].
+  apply result_of_in. exists y, nd. rewrite Hcy. auto.
 Qed.
 
 (* the connectivity hypothesis is satisfiable by a reachable state (two nodes linked both ways) *)
